@@ -222,7 +222,8 @@ def one(args):
         res.update(mism=mism[:3], n=len(lines), kinds=kinds)
         res["races"] = vc_races(lines)
         # definitional detector: always for the hand-off locations, for mailboxes/flags on short traces
-        cls = ["s", "x", "p", "o", "d", "e", "v", "g"] + (["q", "f"] if len(lines) <= 5000 else [])
+        # (the scan is linear per access of the class: bound the quadratic cases by trace length)
+        cls = ["s", "x", "p", "o", "d", "e"] + (["v", "g"] if len(lines) <= 15000 else []) + (["q", "f"] if len(lines) <= 5000 else [])
         rc, out, err = sh([drv] + cls, input="\n".join(lines) + "\n", timeout=900)
         det = dict(kv.split("=") for kv in out.split()) if rc == 0 and out.strip() else {}
         res["det"] = det
@@ -275,6 +276,8 @@ def report(ctx, jobs, results):
         opt = bool(r["kinds"] & {"WOPT", "WTT"})
         if opt:
             ctx.count("traces_with_option_or_table_writes")
+        # non-trivial: an option / table write was observed (H5b), or - on a tree with H5 only - at least one search hand-off
+        if opt or ("GO" in r["kinds"] and "ROPT" not in r["kinds"]):
             ctx.nontrivial((str(job[2])[:300], job[3]))
         if r["mism"]:
             ctx.violation("C09 conformance: engine access with a lock set different from the model's: %s" % (r["mism"][0],),
